@@ -21,7 +21,7 @@ LEVEL = "fault_enumeration"
 RULE = (
     "cases = fault plans on a real local cluster: a job of 2-6 tasks (harness.genjob, with a requested output downstream of the "
     "victim), 1-2 hosts x 1-2 workers, and one fault: none; or the victim task's body raises (with a message, with an empty message, bare assert) / calls sys.exit(k in {0,1,3}) / "
-    "os._exit / SIGKILLs its own process, before producing any output or between two yields of a multi-output task; or the harness "
+    "os._exit / SIGKILLs its own process, before producing any output, between two yields of a multi-output task, or after its last yield (all outputs published); or the harness "
     "SIGKILLs/SIGTERMs a chosen helper process (worker i, data server, shm server of a chosen host) once the controller has seen k "
     "events. Oracle: run() ends within the deadline (a time-out is confirmed by a second run with doubled deadline before it counts); "
     "if the fault makes a requested output impossible run() ends with an exception; if it returns, every requested value equals the "
@@ -77,7 +77,7 @@ def plans(draw):
     if where == "task":
         kind, code = draw(st.sampled_from(KINDS))
         multi = len(spec["tasks"][vi]["outs"]) > 1
-        at = draw(st.sampled_from(["before", "between"])) if multi else "before"
+        at = draw(st.sampled_from(["before", "between", "after"])) if multi else "before"
         fault = {"where": "task", "task": spec["tasks"][vi]["name"], "kind": kind, "at": at}
         if code is not None:
             fault["code"] = code
@@ -128,7 +128,9 @@ def run_plan_checked(plan: dict, stats: Stats | None) -> tuple[bool, list[str]]:
         if out["verdict"] == "hang":
             raise Violation(f"{what}: run() did not end within {2 * DEADLINE_S}s (confirmed by a second run)", "hang")
         tags.append("verdict:" + out["verdict"])
-        if f["where"] == "task" and reached and out["verdict"] == "returned":
+        # a fault after the last yield happens when every output is already published: returning the right values is as acceptable
+        # as failing the run
+        if f["where"] == "task" and f["at"] != "after" and reached and out["verdict"] == "returned":
             raise Violation(f"{what}: the victim never produced its outputs but run() returned normally with {out.get('outputs')}", "failure-swallowed")
         if out["verdict"] == "returned":
             job = build_job(plan["job"])
